@@ -2,7 +2,10 @@ import Cello.Dispatch
 import CelloGen.Disp
 import Driver.Common
 /- driver for engine `disp` (C08): executes the op file of harness/h_disp.c on the model `Cello.Dispatch` and prints the
-   same `O` lines.  Besides, on every lookup it checks the model against itself: the observation equals `specObs` of the
+   same `O` lines.  Run-time types are constructed by the word-level `Type_New` of the model on the storage they get
+   (calloc'ed, junk-filled caller storage, or — `W` — the words of their own previous incarnation: warmed cache words,
+   memoised class pointers, old triples); instance pointers get fresh identities at every construction and are printed as
+   the index of the triple of the CURRENT record that holds them (`?` for a pointer no current triple holds).  Besides, on every lookup it checks the model against itself: the observation equals `specObs` of the
    declaration, the executable invariant `invb` holds afterwards, and the small-step machine run alone (`runSolo`) ends
    in the state and result of the sequential functions; a failure prints `O MODEL-INCONSISTENT …` (a divergence). -/
 open Cello.Dispatch
@@ -17,14 +20,46 @@ def maxC : Nat := 4096
 def maxRow : Nat := 300
 def cellW : Nat := 8
 
+/-- the part of a run-time type's storage that is not in its record: `__Name`, `__Size`, the words after the terminator -/
+structure Aux where
+  name : String
+  size : Nat
+  rest : List Word
+deriving Inhabited
+
 structure St where
   w : World
   kinds : List (Nat × Nat)        -- tid ↦ 1 library type | 2 static probe | 3 run-time type
   rcls : List (Nat × String)
   syms : List (Nat × String)      -- tid ↦ symbol of a B/S-bound type object
+  aux : List (Nat × Aux) := []    -- run-time types
+  nextId : Nat := 1000            -- instance pointers of run-time types are never reused: every construction gets fresh identities
 deriving Inhabited
 
 def St.init : St := { w := { slots := slots, theType := 0, types := [] }, kinds := [], rcls := [], syms := [] }
+
+def layout : Layout :=
+  { cacheNum := CelloGen.Disp.cacheNum, nBuiltins := CelloGen.Disp.nBuiltins, maxInstances := CelloGen.Disp.maxInstances }
+
+def auxOf (s : St) (tid : Nat) : Option Aux := (s.aux.find? (fun p => p.1 = tid)).map (·.2)
+def setAux (s : St) (tid : Nat) (a : Aux) : St := { s with aux := (tid, a) :: s.aux.filter (fun p => p.1 ≠ tid) }
+def dropType (s : St) (tid : Nat) : St :=
+  { s with w := { s.w with types := s.w.types.filter (fun p => p.1 ≠ tid) }, aux := s.aux.filter (fun p => p.1 ≠ tid) }
+
+/-- calloc'ed storage of `Type_Alloc` -/
+def zeroMem : List Word := List.replicate (3 * layout.cells) Word.null
+
+def junkNames : List String := ["Hash", "Len", "Size", "Show", "Cmp", "New", "Iter", "Get", "Cast", "Alloc", "C_Str", "Push"]
+def decoy : Inst := ⟨999999999, List.replicate 8 true⟩
+/-- the junk the harness writes into caller-provided storage before `construct_with` (mode `junk`) -/
+def junkMem : List Word :=
+  (List.range layout.cells).flatMap (fun j =>
+    if 3 * j + 2 < layout.cacheNum then [Word.inst decoy, .inst decoy, .inst decoy]
+    else
+      let nm := junkNames[j % 12]?.getD ""
+      [if j % 2 = 1 then Word.cls ⟨0, nm⟩ else .null, .str nm, .inst decoy])
+
+def tailCount (rest : List Word) : Nat := rest.countP (fun w => w ≠ Word.null)
 
 def kindOf (s : St) (tid : Nat) : Nat := ((s.kinds.find? (fun p => p.1 = tid)).map (·.2)).getD 0
 def setKind (s : St) (tid k : Nat) (sym : String := "") : St :=
@@ -49,10 +84,15 @@ def excName : Exc → String
   | .TypeError => "TypeError" | .ValueError => "ValueError" | .ClassError => "ClassError" | .OutOfMemoryError => "OutOfMemoryError"
   | .FormatError => "FormatError"
 
-def showOptInst : Outcome (Option Inst) → String
-  | .ok none => "NULL" | .ok (some i) => s!"#{i.id}" | .raised e => excName e | .ub => "ub"
-def showInst : Outcome Inst → String
-  | .ok i => s!"#{i.id}" | .raised e => excName e | .ub => "ub"
+/-- an instance pointer is printed as the index of the (first) triple of the record that holds it, `?` when none does -/
+def idx (t : TypeRec) (i : Inst) : String :=
+  match t.entries.findIdx? (fun e => e.inst = i) with
+  | some k => toString k
+  | none => "?"
+def showOptInst (t : TypeRec) : Outcome (Option Inst) → String
+  | .ok none => "NULL" | .ok (some i) => s!"#{idx t i}" | .raised e => excName e | .ub => "ub"
+def showInst (t : TypeRec) : Outcome Inst → String
+  | .ok i => s!"#{idx t i}" | .raised e => excName e | .ub => "ub"
 def showBool : Outcome Bool → String
   | .ok b => if b then "1" else "0" | .raised e => excName e | .ub => "ub"
 def excOf {α : Type} : Outcome α → String
@@ -61,7 +101,7 @@ def excOf {α : Type} : Outcome α → String
 def dumpRec (t : TypeRec) (memoIds : Bool) : String :=
   let cs := (List.range t.cache.length).filterMap (fun i =>
     match t.cache[i]? with
-    | some (some inst) => some s!"{i}:{inst.id}"
+    | some (some inst) => some s!"{i}:{idx t inst}"
     | _ => none)
   let ms := ((List.range t.entries.length).zip t.entries).filterMap (fun p =>
     match p.2.memo with
@@ -85,8 +125,12 @@ def parseItem (tok : String) : Option (String × List Bool) :=
 
 def parseRow (toks : List String) : Option (List (String × List Bool)) := toks.mapM parseItem
 
-def mkEntries (row : List (String × List Bool)) : List (String × Inst) :=
-  ((List.range row.length).zip row).map (fun p => (p.2.1, ⟨p.1, p.2.2⟩))
+/-- class tokens of a row resolved to the names of the class objects -/
+def namedRow (s : St) (row : List (String × List Bool)) : Option (List (String × List Bool)) :=
+  row.mapM (fun p => (clsOf s p.1).map (fun c => (c.name, p.2)))
+
+def mkEntries (row : List (String × List Bool)) (base : Nat := 0) : List (String × Inst) :=
+  ((List.range row.length).zip row).map (fun p => (p.2.1, ⟨base + p.1, p.2.2⟩))
 
 /-- model-internal consistency of one record-level lookup -/
 def selfCheck (t : TypeRec) (op : Op) (t' : Option TypeRec) : Option String :=
@@ -153,12 +197,12 @@ def lookupOp (s : St) (op : String) (tid : Nat) (cls : Cls) (k : Nat) : IO St :=
     | some inst => if k ≥ inst.members.length then do bad; return s
     | none => pure ()
   let (w', res, mop) : World × String × Op :=
-    if op = "I" then let r := typeInstanceW s.w self cls; (r.1, showOptInst r.2, Op.lookup cls)
-    else if op = "i" then let r := instanceW s.w self cls; (r.1, showOptInst r.2, Op.lookup cls)
+    if op = "I" then let r := typeInstanceW s.w self cls; (r.1, showOptInst t r.2, Op.lookup cls)
+    else if op = "i" then let r := instanceW s.w self cls; (r.1, showOptInst t r.2, Op.lookup cls)
     else if op = "P" then let r := typeScanW s.w self cls; (r.1, showBool (match r.2 with | .ok v => .ok v.isSome | .raised e => .raised e | .ub => .ub), Op.implements cls)
     else if op = "p" then let r := implementsW s.w self cls; (r.1, showBool r.2, Op.implements cls)
-    else if op = "M" then let r := typeMethodAtW s.w self cls k; (r.1, showInst r.2, Op.methodAt cls k)
-    else if op = "m" then let r := methodAtW s.w self cls k; (r.1, showInst r.2, Op.methodAt cls k)
+    else if op = "M" then let r := typeMethodAtW s.w self cls k; (r.1, showInst t r.2, Op.methodAt cls k)
+    else if op = "m" then let r := methodAtW s.w self cls k; (r.1, showInst t r.2, Op.methodAt cls k)
     else if op = "Q" then let r := typeImplementsMethodAtW s.w self cls k; (r.1, showBool r.2, Op.implementsMethodAt cls k)
     else let r := implementsMethodAtW s.w self cls k; (r.1, showBool r.2, Op.implementsMethodAt cls k)
   match selfCheck t mop (w'.get tid) with
@@ -203,21 +247,93 @@ def main (args : List String) : IO Unit := do
       else if op = "T" then
         match tidS.toNat?, parseRow rest with
         | some tid, some row =>
-          let cl := row.mapM (fun p => (clsOf s p.1).map (fun c => (c.name, p.2)))
-          match cl with
+          match namedRow s row with
           | some named =>
             if tid ≥ maxT || rest.length > maxRow then bad
             else
-              match typeNew CelloGen.Disp.cacheNum CelloGen.Disp.maxInstances (mkEntries named) with
-              | .ok t =>
-                s := setKind { s with w := s.w.put tid t } tid 3
+              let es := mkEntries named s.nextId
+              s := { s with nextId := s.nextId + row.length + 1 }
+              match constructAt layout true false zeroMem sym 0 es with
+              | (some st, .ok _) =>
+                if typeNew CelloGen.Disp.cacheNum CelloGen.Disp.maxInstances es ≠ .ok st.trec then
+                  IO.println "O MODEL-INCONSISTENT T the word-level Type_New and the record-level typeNew differ"
+                s := setAux (setKind { s with w := s.w.put tid st.trec } tid 3) tid ⟨st.name, st.size, st.rest⟩
                 IO.println s!"O T {tid} n={row.length} ok{dump s tid}"
-              | .raised e =>
-                s := setKind { s with w := { s.w with types := s.w.types.filter (fun p => p.1 ≠ tid) } } tid 0
+              | (_, .raised e) =>
+                s := setKind (dropType s tid) tid 0
                 IO.println s!"O T {tid} n={row.length} {excName e}"
-              | .ub => bad
+              | _ => IO.println s!"O T {tid} n={row.length} ub"
           | none => bad
         | _, _ => bad
+      else if op = "N" then
+        -- N <tid> <mode> <name> <size> row… : sym = mode
+        match tidS.toNat?, rest with
+        | some tid, name :: sizeS :: rowToks =>
+          let memO : Option (List Word) :=
+            if sym = "junk" then some junkMem else if ["raw", "root", "gc", "alloc"].contains sym then some zeroMem else none
+          match sizeS.toNat?, parseRow rowToks, memO with
+          | some size, some row, some mem =>
+            match namedRow s row with
+            | some named =>
+              if tid ≥ maxT || rowToks.length > maxRow || size > 1000000 then bad
+              else
+                let es := mkEntries named s.nextId
+                s := { s with nextId := s.nextId + row.length + 1 }
+                match constructAt layout true false mem name size es with
+                | (some st, .ok _) =>
+                  if st.trec ≠ mkType CelloGen.Disp.cacheNum true es || !invb slots st.trec then
+                    IO.println "O MODEL-INCONSISTENT N the constructed record is not the fresh record of the instance list"
+                  s := setAux (setKind { s with w := s.w.put tid st.trec } tid 3) tid ⟨st.name, st.size, st.rest⟩
+                  IO.println s!"O N {tid} n={row.length} ok{dump s tid} z={tailCount st.rest}"
+                | (_, .raised e) =>
+                  s := setKind (dropType s tid) tid 0
+                  IO.println s!"O N {tid} n={row.length} {excName e}"
+                | _ => IO.println s!"O N {tid} n={row.length} ub"
+            | none => bad
+          | _, _, _ => bad
+        | _, _ => bad
+      else if op = "W" then
+        -- W <tid> <name> <size> row… : sym = name; destruct(T); construct_with(T, …) on the words of the live incarnation
+        match tidS.toNat?, rest with
+        | some tid, sizeS :: rowToks =>
+          match sizeS.toNat?, parseRow rowToks, s.w.get tid, auxOf s tid with
+          | some size, some row, some t, some a =>
+            match namedRow s row with
+            | some named =>
+              if kindOf s tid ≠ 3 || rowToks.length > maxRow || size > 1000000 then bad
+              else
+                let es := mkEntries named s.nextId
+                s := { s with nextId := s.nextId + row.length + 1 }
+                let st : Store := { trec := t, name := a.name, size := a.size, rest := a.rest }
+                let r := constructIn layout st sym size es
+                match r.2 with
+                | .ok _ =>
+                  if r.1.trec ≠ mkType CelloGen.Disp.cacheNum t.hdr es || !invb slots r.1.trec || r.1.toRaw.length ≠ st.toRaw.length then
+                    IO.println "O MODEL-INCONSISTENT W the re-constructed record is not the fresh record of the new instance list"
+                  s := setAux { s with w := s.w.put tid r.1.trec } tid ⟨r.1.name, r.1.size, r.1.rest⟩
+                  IO.println s!"O W {tid} n={row.length} ok{dump s tid} z={tailCount r.1.rest}"
+                | .raised e =>
+                  if r.1 ≠ st then IO.println "O MODEL-INCONSISTENT W a refused re-construction changed the object"
+                  IO.println s!"O W {tid} n={row.length} {excName e} ok{dump s tid} z={tailCount a.rest}"
+                | .ub => IO.println s!"O W {tid} n={row.length} ub"
+            | none => bad
+          | _, _, _, _ => bad
+        | _, _ => bad
+      else if op = "Y" && rest.isEmpty then
+        -- Y <tid> copy|assign : `instance(T, Copy|Assign)` is a lookup in Type's record; Type's own member refuses with ValueError
+        match tidS.toNat? with
+        | some tid =>
+          if kindOf s tid = 0 || !(kindOf s 0 = 1 && symOf s 0 = "Type") || (sym ≠ "copy" && sym ≠ "assign") then bad
+          else
+            let r := instanceW s.w (.typeObj tid) ⟨0, if sym = "copy" then "Copy" else "Assign"⟩
+            s := { s with w := r.1 }
+            let res := match r.2 with
+              | .ok (some c) => (match memberAt c 0 with | .ok true => "ValueError" | _ => "other")
+              | .ok none => "other"
+              | .raised e => excName e
+              | .ub => "ub"
+            IO.println s!"O Y {sym} {res}{dump s tid}"
+        | none => bad
       else if op = "K" && rest.isEmpty then
         match tidS.toNat?, sym.toNat? with
         | some tid, some tid2 =>
@@ -281,7 +397,7 @@ def main (args : List String) : IO Unit := do
             else
               let r := instanceW s.w (.typeObj tid) cls
               s := { s with w := r.1 }
-              IO.println s!"O J {showOptInst r.2}{dump s tid}"
+              IO.println s!"O J {showOptInst ((s.w.get 0).getD default) r.2}{dump s tid}"
           else s ← lookupOp s op tid cls 0
         | _, _ => bad
       else if ["M", "Q", "m", "q"].contains op then
@@ -293,7 +409,15 @@ def main (args : List String) : IO Unit := do
         | _, _, _ => bad
       else bad
     | [op, tidS] =>
-      if op = "R" || op = "D" then
+      if op = "X" then
+        match tidS.toNat? with
+        | some tid =>
+          if kindOf s tid ≠ 3 then bad
+          else
+            s := setKind (dropType s tid) tid 0
+            IO.println s!"O X {tid} none"
+        | none => bad
+      else if op = "R" || op = "D" then
         match tidS.toNat? with
         | some tid =>
           match s.w.get tid with
